@@ -174,6 +174,14 @@ GuessOf(f) == IF LogVal(f) > LogThr THEN "millimeters" ELSE "inches"
 TinyThr == -14113943                                   \* 10^6 log10(1e-13 / 13)
 ScaleClamped(f) == Kind = "geom" /\ LogVal(f) < TinyThr
 
+\* every entry of Log6 is rounded to 0.5e-6: with |exponents| summing to at most 400 the sum is off by at most
+\* 200; magnitudes no further than 200 (0.05 %) to one of the two thresholds are not exercised
+Abs(x) == IF x < 0 THEN -x ELSE x
+RECURSIVE SumAbs(_, _)
+SumAbs(v, i) == IF i = 0 THEN 0 ELSE Abs(v[i]) + SumAbs(v, i - 1)
+GuessDecidable == Abs(LogVal(fac) - LogThr) > 200
+ClampDecidable == Abs(LogVal(fac) - TinyThr) > 200
+LogBudget == SumAbs(fac, NP) <= 400
 \* ---------------------------------------------------------------- the machine
 ObjLabel(l) == IF \A g, h \in Geoms : l[g] = l[h] THEN l[CHOOSE g \in Geoms : TRUE] ELSE None
 Mixed(l) == \E g, h \in Geoms : l[g] # l[h]
@@ -220,6 +228,8 @@ Convert(raw, guess) ==
     IN
     \* a scene whose geometries disagree reports no units; what a guess should mean there is not stated
     /\ Mixed(lab) => (~guess /\ HintUnit(hint) = None)
+    \* the guess compares a magnitude: not exercised within the error of the fixed-point logarithms
+    /\ (cur = None /\ HintUnit(hint) = None /\ (guess \/ MutGuessAlways)) => GuessDecidable
     /\ IF ok
        THEN /\ lab' = [g \in Geoms |-> IF MutNoRelabel THEN (IF cur = None /\ Kind = "geom" THEN src ELSE lab[g]) ELSE dst]
             /\ fac' = Add(fac, f)
@@ -250,6 +260,7 @@ Scale(k) ==
 
 \* obj.scale  |  obj.bounds and obj.extents   (cached properties: the value must be the current one)
 Read(q) ==
+    /\ q = "scale" => ClampDecidable
     /\ UNCHANGED <<lab, fac, tfac, prev, hint, lastSet, prod>>
     /\ Step(Out("read", "", FALSE, Z, q, "-", FALSE, "", None))
 
@@ -293,9 +304,6 @@ LeftBehindFrozen ==
     => prev = last.pbefore
 SceneConvertLeavesOriginal ==
     (Kind = "scene" /\ IsConv /\ ~last.raised) => prev = last.before
-\* the scale comparison behind the guess is decided by the fixed-point logarithms with a wide margin
-Abs(x) == IF x < 0 THEN -x ELSE x
-GuessDecidable == Abs(LogVal(fac) - LogThr) > 2000 /\ Abs(LogVal(fac) - TinyThr) > 2000
 
 \* ----------------------------------------------- the table (run with MaxDepth = 0)
 \* unit_conversion(a,b) unit_conversion(b,a) = 1 ; unit_conversion(a,c) = unit_conversion(a,b) unit_conversion(b,c)
